@@ -144,6 +144,21 @@ func classify(d *refmodel.DAG, s Spec, hashes []repository.Hash) (class string, 
 			return "silent:two-clock-entries-of-different-value", nil
 		}
 	}
+	for i, c := range s {
+		if _, reachable := d.Packs[hashes[i]]; !reachable || c.Ver == nil {
+			continue
+		}
+		// the format version entry, read as the documented format does: one decimal number, and it
+		// has to be the bug format version
+		bad := len(c.Ver) != 1
+		if !bad {
+			v, err := strconv.ParseUint(c.Ver[0], 10, 64)
+			bad = err != nil || v != formatVersion
+		}
+		if bad {
+			reasons = append(reasons, "unreadable or foreign format version")
+		}
+	}
 	if len(reasons) > 0 {
 		return "invalid:" + strings.Join(reasons, "+"), nil
 	}
@@ -179,7 +194,7 @@ func differ(entries []string) bool {
 
 func errClass(s string) string {
 	for _, k := range []string{"creation lamport time not set", "DFS failed", "lamport clock ordering", "multiple leafs",
-		"merge commit cannot have operations", "jumping too far", "edit time is zero", "does not match the id", "panic"} {
+		"merge commit cannot have operations", "jumping too far", "edit time is zero", "does not match the id", "can't read edit lamport time", "can't read creation lamport time", "can't read format version", "format version", "panic"} {
 		if strings.Contains(s, k) {
 			return strings.ReplaceAll(k, " ", "-")
 		}
@@ -299,7 +314,29 @@ type batch struct {
 
 func (b *batch) count(k string) { b.out.Counts[k]++ }
 
+// spellingAspect maps the general signatures to the aspect named in a spelling signature.
+func spellingAspect(sig string) string {
+	base := strings.SplitN(sig, ":", 2)[0]
+	switch base {
+	case "invalid-history-accepted":
+		return "accepted"
+	case "invalid-history-merged":
+		return "merged"
+	case "valid-history-refused", "valid-history-refused-by-merge":
+		return "refused"
+	case "order-differs-from-reference":
+		return "order"
+	case "causal-inversion":
+		return "causal"
+	}
+	return base
+}
+
 func (b *batch) viol(o *obs, oracle, sig, format string, a ...any) {
+	if sp := SpellingOf(o.spec); sp != "" {
+		// histories of the spelling alphabet are reported by the way the number is written, not by values
+		sig = sp + "/" + spellingAspect(sig)
+	}
 	b.out.Viol = append(b.out.Viol, Viol{Spec: o.str, Mode: b.mode, Oracle: oracle, Sig: sig,
 		Detail: fmt.Sprintf("history %s [%s]: ", o.str, o.class) + fmt.Sprintf(format, a...)})
 }
@@ -514,7 +551,11 @@ func (w *wk) run(mode string, specs []string) (res BatchOut) {
 		// backend comparison (only when mockRepo holds the same graph: it derives commit hashes from
 		// tree and parents alone, so two sibling commits with equal content collapse into one there)
 		om := mocks[i]
-		if len(om.d.Packs) == len(o.d.Packs) {
+		if hasBlank(o.spec) {
+			// mockRepo re-assembles entry names from blank-separated fields and drops the blanks: it does
+			// not hold the same tree, so there is nothing to compare
+			b.count("mock_entry_name_mangled")
+		} else if len(om.d.Packs) == len(o.d.Packs) {
 			if om.class != o.class {
 				return fail(fmt.Errorf("reference reader classifies %s differently on the two backends: %s / %s", o.str, o.class, om.class))
 			}
@@ -615,6 +656,17 @@ func firstOr(l []string, d string) string {
 // account records the non-vacuity counters for one history.
 func (w *wk) account(b *batch, o *obs) {
 	b.count("class " + o.class)
+	if sp := SpellingOf(o.spec); sp != "" {
+		verdict := "must-be-refused"
+		if !strings.HasPrefix(o.class, "invalid:") {
+			verdict = strings.SplitN(o.class, ":", 2)[0]
+		}
+		got := "ordered"
+		if o.a[0].Err != "" {
+			got = "refused"
+		}
+		b.count("spelling " + sp + " " + verdict + " " + got)
+	}
 	if o.a[0].Err != "" {
 		b.count("refused_with " + errClass(o.a[0].Err))
 	} else {
